@@ -275,7 +275,7 @@ impl<F: Flavor> Sys<F> {
     fn invariants(&mut self, out: &mut StepOut) {
         let (na, nf) = harness::take_alloc_counts();
         if na + nf > 0 {
-            out.v("C18", "alloc-in-call", format!("{} allocations / {} frees inside library calls of this step", na, nf));
+            out.p("C18", "alloc-in-call", format!("{} allocations / {} frees inside library calls of this step", na, nf));
         }
         let snap = F::snapshot(&self.chan);
         let live = self.live_nodes();
@@ -285,11 +285,11 @@ impl<F: Flavor> Sys<F> {
         for (i, s) in self.slots.iter().enumerate() {
             if let Some(s) = s {
                 if s.fut.get().is_terminated() != s.meta.done {
-                    out.v("C17", "is-terminated", format!("slot {}: is_terminated()={} but completed={}", i, s.fut.get().is_terminated(), s.meta.done));
+                    out.p("C17", "is-terminated", format!("slot {}: is_terminated()={} but completed={}", i, s.fut.get().is_terminated(), s.meta.done));
                 }
                 if !self.open && s.meta.pending() && !fresh(G, i, &s.meta) {
                     let p = if self.value.is_some() { "C12" } else { "C11" };
-                    out.v(p, "pending-not-woken", format!("slot {}: the channel was {} while this receiver was pending, but it has not been woken through the waker of its latest poll", i, if self.value.is_some() { "fulfilled" } else { "closed" }));
+                    out.p(p, "pending-not-woken", format!("slot {}: the channel was {} while this receiver was pending, but it has not been woken through the waker of its latest poll", i, if self.value.is_some() { "fulfilled" } else { "closed" }));
                 }
             }
         }
